@@ -110,3 +110,10 @@ def fill(check, na):
           "class-reduced matrices are enumerated across a run; payloads and bit positions are sampled.",
           "OpenSSL / pyOpenSSL / libsrtp trusted; in-memory ICE stand-in without loss during the handshake.",
           "DESIGN.md 3/C04")
+    check("C05", "contract + step-budget monitor (sys.monitoring) on the wire parsers; hostile well-formed datagrams into a real SCTP association in several states and into a real connected DTLS transport with real receiver / sender, followed by a fresh-traffic probe",
+          "Held on the inputs generated: every parser returned or raised ValueError within a step budget proportional to the input; "
+          "no exception escaped the SCTP receive path, associations stayed usable, rejected datagrams changed nothing; a real DTLS "
+          "transport stayed 'connected' and delivered valid media and data afterwards. Inputs are random, mutated and "
+          "structure-aware (adversarial lengths and counts); sampled.",
+          "Work is measured in monitored interpreter steps inside the repository; OpenSSL / libsrtp / PyAV trusted; accepted hostile chunks may break the lying peer's own data.",
+          "DESIGN.md 3/C05")
